@@ -56,7 +56,7 @@ from hpstatic.logic import select, guard_atoms
 from hpstatic.poly import Canon
 import itertools
 
-MUTATION_TARGETS = {'holopy/core/mapping.py': ['read_map', 'edit_map_indices', 'convert_to_map', 'get_parameter_index', 'check_for_ties', 'add_parameter', 'map_dictionary', 'map_transformed_prior'], 'holopy/inference/model.py': ['add_tie', 'ensure_parameters_are_listlike', 'parameters', 'initial_guess', '_scatterer_from_parameters', 'theory_from_parameters'], 'holopy/scattering/scatterer/scatterer.py': ['from_parameters', 'parameters'], 'holopy/scattering/scatterer/composite.py': ['from_parameters', '_parameters'], 'holopy/scattering/scatterer/spherecluster.py': ['from_parameters', 'scatterers']}
+MUTATION_TARGETS = {'holopy/core/mapping.py': ['read_map', 'edit_map_indices', 'convert_to_map', 'get_parameter_index', 'check_for_ties', 'add_parameter', 'map_dictionary', 'map_transformed_prior', 'map_xarray', 'make_xarray'], 'holopy/inference/model.py': ['add_tie', 'ensure_parameters_are_listlike', 'parameters', 'initial_guess', '_scatterer_from_parameters', 'theory_from_parameters'], 'holopy/scattering/scatterer/scatterer.py': ['from_parameters', 'parameters'], 'holopy/scattering/scatterer/composite.py': ['from_parameters', '_parameters'], 'holopy/scattering/scatterer/spherecluster.py': ['from_parameters', 'scatterers']}
 
 LEVEL = 'other'
 META = dict(
@@ -67,7 +67,9 @@ META = dict(
               'semantics; formula conformance of the tie renumbering; effect '
               'analysis of the parallel parameter lists; def-use (dependence) '
               'checks of name-keyed vs list-ordered access; identity-preserving '
-              'flow of parameter values through every from_parameters',
+              'flow of parameter values through every from_parameters'
+              '; unknown guards enumerated as free atoms; value/label pairing of labe'
+              'lled-array parameters',
     level_text='Static: decides the structural clauses G1-G9 for every map the '
                'writer can produce (the grammar is finite) and every from_parameters '
                'implementation in the package.  These are the conditions under '
